@@ -96,7 +96,9 @@ pub trait Round: Copy {
     #[inline]
     fn round_fract<const B: Word>(integer: &IBig, fract: IBig, precision: usize) -> Rounding {
         // this assertion is costly, so only check in debug mode
-        debug_assert!(fract.clone().unsigned_abs() < UBig::from_word(B).pow(precision));
+        debug_assert!(
+            fract.is_zero() || fract.clone().unsigned_abs().ilog(&UBig::from_word(B)) < precision
+        );
 
         if fract.is_zero() {
             return Rounding::NoOp;
